@@ -11,6 +11,9 @@ def sh(cmd, **kw):
     return subprocess.run(cmd, shell=True, stdout=subprocess.PIPE, stderr=subprocess.STDOUT, text=True, **kw)
 
 def main():
+    use_wt = "--worktree" in sys.argv
+    if use_wt:
+        sys.argv.remove("--worktree")
     ids = sys.argv[1:] or sorted(d for d in os.listdir(os.path.join(V, "seeded")) if os.path.isdir(os.path.join(V, "seeded", d)))
     assert sh("git -C %s status --porcelain --untracked-files=no" % REPO).stdout.strip() == "", "/repo has local changes"
     resp = os.path.join(V, "seeded", "RESULTS.json")
@@ -19,31 +22,42 @@ def main():
         d = os.path.join(V, "seeded", sid)
         meta = json.load(open(os.path.join(d, "meta.json")))
         props = [meta["property"]] + meta.get("also_checks", [])
-        ap = sh("git -C %s apply --whitespace=nowarn %s" % (REPO, os.path.join(d, "patch.diff")))
+        repo = REPO
+        if use_wt:
+            repo = "/tmp/se/%s" % sid
+            sh("rm -rf %s; git -C %s worktree prune; mkdir -p /tmp/se; git -C %s worktree add -q --detach %s HEAD" % (repo, REPO, REPO, repo))
+        ap = sh("git -C %s apply --whitespace=nowarn %s" % (repo, os.path.join(d, "patch.diff")))
         if ap.returncode != 0:
             results[sid] = {"property": meta["property"], "applied": False, "note": ap.stdout[-300:]}
+            if use_wt:
+                sh("git -C %s worktree remove --force %s" % (REPO, repo))
             continue
         try:
             out = {}
             for p in props:
                 ev = os.path.join(V, "evidence", p + ".json")
-                bak = ev + ".bak"
+                bak = ev + ".bak_" + sid
                 if os.path.exists(ev):
                     shutil.copy(ev, bak)
                 t0 = time.time()
-                r = sh("cd %s && timeout 1500 ./check %s --tier quick" % (V, p))
+                r = sh("cd %s && VERIF_REPO=%s timeout 2400 ./check %s --tier quick" % (V, repo, p))
                 lines = [l for l in r.stdout.split("\n") if l.startswith("VIOLATION")]
                 out[p] = {"exit": r.returncode, "violations": len(lines), "first": (lines[0] if lines else ""),
                           "found_input": any("no-failing-input-found" not in l for l in lines), "wall_s": round(time.time() - t0)}
                 if os.path.exists(bak):
                     shutil.move(bak, ev)
+            results = json.load(open(resp)) if os.path.exists(resp) else results
             results[sid] = {"property": meta["property"], "applied": True, "checks": out,
                             "caught": any(v["exit"] == 1 and v["violations"] > 0 for v in out.values()),
                             "summary": meta.get("summary", "")[:200]}
         finally:
-            sh("git -C %s checkout -- ." % REPO)
+            if use_wt:
+                sh("git -C %s worktree remove --force %s" % (REPO, repo))
+            else:
+                sh("git -C %s checkout -- ." % REPO)
         json.dump(results, open(resp, "w"), indent=1)
-        print(sid, results[sid].get("caught"), results[sid].get("checks"))
+        print(sid, results[sid].get("caught"), results[sid].get("checks"), flush=True)
+    results = json.load(open(resp)) if os.path.exists(resp) else results
     with open(os.path.join(V, "seeded", "RESULTS.md"), "w") as f:
         f.write("| seeded change | property | caught | by | with failing input | summary |\n|---|---|---|---|---|---|\n")
         for sid in sorted(results):
